@@ -144,6 +144,13 @@ def mutate(rng, cfg, uses, kind):
                 w += "1"
         elif kind == "unknown-long":
             w = rng.choice(["--zzz", "--unknown=1", "--zz-top", "--no-such-arg"])
+            longs = cfg.all_longs()
+            if longs and rng.random() < 0.6:
+                # an unknown key that EXTENDS a declared long key (--countdown for --count) is unknown, not an abbreviation
+                base = rng.choice(longs)
+                ext = base + rng.choice(["x", "s", "-extra", "down", "2"])
+                if ext not in longs and not any(l.startswith(ext) for l in longs):
+                    w = "--" + ext + rng.choice(["", "=1"])
         else:
             longs = cfg.all_longs()
             cands = set()
